@@ -28,7 +28,7 @@ class _Shim:
     _accepted_cx: dict = {}
 
 
-def assoc_rq_bytes(port, proposals, calling="PEER", called="ACCEPTOR", roles=(), max_len=16382):
+def assoc_rq_bytes(port, proposals, calling="PEER", called="ACCEPTOR", roles=(), max_len=16382, async_ops=None):
     p = A_ASSOCIATE()
     p.application_context_name = "1.2.840.10008.3.1.1.1"
     p.calling_ae_title, p.called_ae_title = calling, called
@@ -43,6 +43,11 @@ def assoc_rq_bytes(port, proposals, calling="PEER", called="ACCEPTOR", roles=(),
         r = SCP_SCU_RoleSelectionNegotiation()
         r.sop_class_uid, r.scu_role, r.scp_role = uid, scu, scp
         ui.append(r)
+    if async_ops:
+        from pynetdicom.pdu_primitives import AsynchronousOperationsWindowNegotiation
+        a = AsynchronousOperationsWindowNegotiation()
+        a.maximum_number_operations_invoked, a.maximum_number_operations_performed = async_ops
+        ui.append(a)
     p.user_information = ui
     cxs = []
     for k, (ab, tss) in enumerate(proposals):
@@ -54,8 +59,9 @@ def assoc_rq_bytes(port, proposals, calling="PEER", called="ACCEPTOR", roles=(),
 
 
 class RawPeer:
-    def __init__(self, port, proposals, roles=(), calling="PEER", called="ACCEPTOR", connect_timeout=3.0):
+    def __init__(self, port, proposals, roles=(), calling="PEER", called="ACCEPTOR", connect_timeout=3.0, async_ops=None):
         self.port, self.proposals, self.roles, self.calling, self.called = port, list(proposals), list(roles), calling, called
+        self.async_ops = async_ops
         self.sock = socket.create_connection(("127.0.0.1", port), timeout=connect_timeout)
         self.sock.setsockopt(socket.IPPROTO_TCP, socket.TCP_NODELAY, 1)
         self.cx = {}            # abstract syntax -> accepted context id
@@ -100,8 +106,17 @@ class RawPeer:
 
     # ---- association ----
     def associate(self, timeout=3.0):
-        self.send_bytes(assoc_rq_bytes(self.port, self.proposals, self.calling, self.called, self.roles), "assoc_rq")
+        self.send_rq()
+        return self.read_answer(timeout)
+
+    def send_rq(self):
+        self.send_bytes(assoc_rq_bytes(self.port, self.proposals, self.calling, self.called, self.roles, async_ops=self.async_ops), "assoc_rq")
+
+    def read_answer(self, timeout=3.0):
+        """"assoc_ac" (contexts recorded), "assoc_rj" (self.rj = (result, source, reason)), or what else arrived."""
         kind, b = self.recv_pdu(timeout)
+        if kind == "assoc_rj":
+            self.rj = (b[7], b[8], b[9])
         if kind == "assoc_ac":
             ac = A_ASSOCIATE_AC()
             ac.decode(b)
@@ -117,7 +132,9 @@ class RawPeer:
         self.send_bytes(A_RELEASE_RP().encode(), "release_rp")
 
     def abort(self):
-        self.send_bytes(A_ABORT_RQ().encode(), "abort")
+        pdu = A_ABORT_RQ()
+        pdu.source, pdu.reason_diagnostic = 0, 0
+        self.send_bytes(pdu.encode(), "abort")
 
     def close(self):
         try:
